@@ -53,7 +53,7 @@ type c14In struct {
 
 func genC14(seed int64, tier string, emit func(run.Case)) {
 	r := gen.New(seed)
-	n := tierN(tier, 2500, 120000)
+	n := tierN(tier, 2500, 40000)
 	for i := 0; i < n; i++ {
 		q := r.Sub(i)
 		if i%5 == 4 {
@@ -319,7 +319,7 @@ func c14Shrink(set *gen.ImportSet, clause string) *gen.ImportSet {
 		names = append(names, p)
 	}
 	sort.Strings(names)
-	for round := 0; round < 2; round++ {
+	for round := 0; round < 1; round++ {
 		for _, p := range names {
 			cur.Files[p] = gen.LShrink(cur.Files[p], func(cand []*gen.LStmt) bool {
 				try := &gen.ImportSet{Main: cur.Main, Files: map[string][]*gen.LStmt{}}
@@ -329,7 +329,7 @@ func c14Shrink(set *gen.ImportSet, clause string) *gen.ImportSet {
 				try.Files[p] = cand
 				w := c14Judge(try)
 				return w.clause == clause
-			}, 60)
+			}, 40)
 		}
 	}
 	return cur
